@@ -721,6 +721,19 @@ func covering(plan []*core.Change, path string) (int, string) {
 	return -1, ""
 }
 
+// planExpects reports whether some transition's old entry has a node at path.
+func planExpects(plan []*core.Change, path string) bool {
+	for _, ch := range plan {
+		if hx.PathIsPrefix(ch.Path, path) {
+			rel := strings.TrimPrefix(strings.TrimPrefix(path, ch.Path), "/")
+			if hx.Lookup(ch.Old, rel) != nil {
+				return true
+			}
+		}
+	}
+	return false
+}
+
 // OracleC08: every node modified or added after the scan is identical after
 // the transition; a directory holding content unknown to the plan is still
 // there, reported as such, and a problem was recorded for the transition that
@@ -734,6 +747,12 @@ func OracleC08(c *Case, o *Outcome) string {
 		n2 := o.F2.Get(p)
 		switch n1.Kind {
 		case 'd':
+			// A directory is protected as such only where the plan expects
+			// nothing at all (a plan that expects a directory there may remove
+			// it once it is empty; its unknown contents are protected on their own).
+			if planExpects(c.Plan, p) {
+				continue
+			}
 			if n2 == nil || n2.Kind != 'd' {
 				return fmt.Sprintf("class=destroyed directory %q modified after the scan is gone (%s)", p, Enc(n2))
 			}
@@ -744,7 +763,7 @@ func OracleC08(c *Case, o *Outcome) string {
 		}
 	}
 	for _, p := range c.Added {
-		if o.F1.Get(p) == nil {
+		if o.F1.Get(p) == nil || planExpects(c.Plan, p) {
 			continue
 		}
 		// Every directory above p that a transition wanted to remove.
